@@ -319,7 +319,7 @@ def lite_fcs():
 
 IGNORABLE_KIND_LEVEL = [
     ('zzz', 3), ('zzz', None), ('zzz', {'value': 1}), ('zzz', [1, 'x']),
-    ('lt', 'b'), ('Min', 0), ('values', ['a']),
+    ('lt', 'b'), ('Min', 0), ('values', ['a']), ('transform', 'x'),
     ('#c', 'text'), ('#', 1), ('#min', 3), ('#c', {'value': 1}),
     ('#c', None), ('#é', ['x']),
 ]
@@ -569,8 +569,7 @@ def value_class(v):
             else 'float'
     elif isinstance(value, str):
         p = spec.parse_instant(value)
-        c = 'str' if not isinstance(p, datetime.datetime) else \
-            ('dateonly' if len(value) == 10 else 'datetime')
+        c = 'datestr' if isinstance(p, datetime.datetime) else 'str'
     elif isinstance(value, list):
         c = 'list'
     else:
@@ -763,9 +762,10 @@ class C09(Check):
             for f1 in FAMILY_ORDER:
                 for f2 in FAMILY_ORDER:
                     n1, n2 = len(FAMILIES[f1]), len(FAMILIES[f2])
-                    for i1 in itertools.product(range(min(n1, 3)), repeat=2):
-                        for i2 in itertools.product(range(min(n2, 3)),
-                                                    repeat=2):
+                    for i1 in itertools.combinations_with_replacement(
+                            range(min(n1, 3)), 2):
+                        for i2 in itertools.combinations_with_replacement(
+                                range(min(n2, 3)), 2):
                             yield {'k': 'disc',
                                    'cols': [['b c', f1, list(i1)],
                                             ['a', f2, list(i2)]],
@@ -1050,8 +1050,9 @@ class C09(Check):
             for k in a[f]:
                 if a[f][k] != b[f][k] or \
                         json.dumps(a[f][k]) != json.dumps(b[f][k]):
-                    out.append('%s:%s->%s' % (bk(k), value_class(a[f][k]),
-                                              value_class(b[f][k])))
+                    out.append('%s:%s->%s' % (
+                        bk(k), value_class(a[f][k]).split('+')[0],
+                        value_class(b[f][k]).split('+')[0]))
         return ';'.join(sorted(set(out))[:3]) or 'other'
 
     # ---- hand-written start -------------------------------------------
@@ -1112,7 +1113,8 @@ class C09(Check):
         if info['sections'] == 1 and info['valid'] and not R.violations:
             C = self.verdicts('path', T1, names)
             R.ev(n)
-            self.compare_routes(R, 'dict', A, 'reserialised', C, doc, T0, T1)
+            self.compare_routes(R, 'dict', A, 'reserialised', C, doc, T0, T1,
+                                roottag=tag if tag != 'hand' else None)
         else:
             # the re-serialised text is already reported as unstable,
             # invalid or unloadable: its verdicts would only repeat that
@@ -1136,7 +1138,7 @@ class C09(Check):
 
     def compare_routes(self, R, na, A, nb, B, doc, T0, T1, known_only=False,
                        drop_null_kinds=False, lenient_raises=False,
-                       sigtail=None):
+                       sigtail=None, roottag=None):
         """Compare two routes' verdicts frame by frame; report ONE violation
         (preferring a frame where both routes gave verdicts).  With
         lenient_raises a frame on which either route raised has no verdict to
@@ -1190,7 +1192,11 @@ class C09(Check):
             tail = value_class(fc[k]).split('+')[0] if k in fc else '-'
         else:
             tail = sigtail
-        R.viol('verdict:%s!=%s:%s:%s' % (na, nb, bk(k), tail),
+        sig = 'verdict:%s!=%s:%s:%s' % (na, nb, bk(k), tail)
+        if roottag:
+            # the document carries a feature that is a root cause of its own
+            sig = 'verdict:%s!=%s:%s' % (na, nb, roottag)
+        R.viol(sig,
                'identical-verdicts-by-every-route',
                {'frame': cid, 'field': f, 'kind': k, na: va, nb: vb,
                 'input': T0[:600], 'written': (T1 or '')[:500]},
